@@ -51,6 +51,8 @@ def render(ev):
         return "-1 # audit"
     if t == "noise":
         return ev["line"]
+    if t == "reload":
+        return "(SIGUSR1 reload with services %s)" % (ev["services"],)
     raise ValueError(t)
 
 
@@ -221,7 +223,12 @@ class Session(object):
             return None
         line = render(ev)
         try:
-            out = self.d.step(line)
+            if ev["t"] == "reload":
+                newcfg = Config([tuple(x) for x in ev["services"]], self.config.timeout, self.config.rules, self.config.use_class)
+                out = self.d.reload(newcfg.text(self.d.build["moddir"]))
+                out = [l for l in out if not l.startswith("#verif")]
+            else:
+                out = self.d.step(line)
         except (daemon.Died, daemon.Hang):
             out = list(self.d.pending_lines)
             self.dead = True
